@@ -6,6 +6,7 @@ import (
 	"fmt"
 	"github.com/gr33nbl00d/caddy-revocation-validator/core"
 	"github.com/gr33nbl00d/caddy-revocation-validator/core/hashing"
+	"github.com/gr33nbl00d/caddy-revocation-validator/core/verifhook"
 	"github.com/gr33nbl00d/caddy-revocation-validator/crl/crlreader"
 	"go.uber.org/zap"
 	"math/big"
@@ -140,6 +141,7 @@ func (S *MapStore) Update(store CRLStore) error {
 	}
 	// Copy the map from storeNew to S
 	S.Map = make(map[string][]byte)
+	verifhook.Hit("map.update.mid")
 	for k, v := range storeNew.Map {
 		S.Map[k] = v
 	}
